@@ -34,6 +34,9 @@ theorem lt_size_of_drop_cons (E : Env) (p : Nat) (c : Cp) (t : List Cp) (h : E.s
   have := get_of_drop_cons E p c t h
   exact (Array.getElem?_eq_some_iff.mp this).1
 
+theorem getElem?_of_drop (E : Env) (p k : Nat) (l : List Cp) (h : E.s.toList.drop p = l) : E.s[p + k]? = l[k]? := by
+  rw [← h, List.getElem?_drop, Array.getElem?_toList]
+
 /-! ## single characters -/
 
 theorem derivs_set_cons (E : Env) (S : CpSet) (st : St) (c : Cp) (t : List Cp)
